@@ -122,6 +122,19 @@ pub fn apply<T: Elem>(l: &mut ItemList<T>, op: &Value) -> String {
             l.retain(|e| keep.iter().any(|k| k == e.get_name()));
             "-".into()
         }
+        "retain_rename" => {
+            // the predicate renames an item it keeps
+            let keep = strs(&op["keep"]);
+            let (x, n) = (op["x"].as_str().unwrap().to_string(), op["n"].as_str().unwrap().to_string());
+            l.retain(|e| {
+                let k = keep.iter().any(|k| k == e.get_name());
+                if e.get_name() == x {
+                    e.set_name(n.clone());
+                }
+                k
+            });
+            "-".into()
+        }
         "truncate" => {
             l.truncate(op["k"].as_u64().unwrap() as usize);
             "-".into()
